@@ -513,3 +513,19 @@ package tchannel
 //@   label sent-ttl-not-above-the-callers-remaining-time
 //@   atcall writeMethod hasdl(ctx) && call.callReq.TimeToLive <= dl(ctx) - nanos(now)
 //@   property C14
+
+// "A handler's context is cancelled when ... its connection fails": a failed read
+// on a connection is a connection error -- it stops the exchanges and so cancels
+// the handlers still running -- in EVERY connection state; the one exception is
+// a read that fails because this side has already closed the network. (A peer
+// hanging up on a draining connection is not an exception: draining means calls
+// are still in flight.)
+//@ closure (c *Connection) readFrames 1
+//@   nosafety
+//@   requires err != nil
+//@   modifies all
+//@   label read-error-fails-the-connection-or-is-ignored-after-our-own-close
+//@   ensures calls(connectionError) + calls(Debugf) == 1
+//@   label the-filter-does-not-depend-on-the-connection-state
+//@   atcall readState false
+//@   property C14
